@@ -142,23 +142,41 @@ pub struct Meta {
     pub level: &'static str,
     pub rule: &'static str,
     pub assumptions: &'static [&'static str],
+    /// when set, `evaluations` is this counter (crash images, injected faults) instead of runs
+    pub eval_counter: Option<&'static str>,
 }
 
 pub const COMMON_ASSUMPTIONS: &[&str] = &[
     "seeded search, not proof: a clean batch is evidence bounded by the reported counts",
     "real code: Server, InMemoryStorage, SqliteStorage, rusqlite, bundled SQLite 3.46 (pager, WAL, busy handler, unix VFS on tmpfs), the four actix handlers, routing, extractors, default-headers middleware",
-    "stubbed: sockets and HTTP/1.1 codec (requests enter at actix's service layer), wall clock and id source (verif feature hooks), thread scheduling (parked real threads, simulator-chosen order), process death and power loss (image capture + reopen), main() of the binary (never run)",
-    "trusted: the reference model and oracles, the simulator's unique id source, SQLite and actix below/above the seams",
+    "stubbed: sockets and HTTP/1.1 codec (requests enter at actix's service layer), wall clock and id source (verif feature hooks), thread scheduling (parked real threads, simulator-chosen order), process death and power loss (image capture + reopen), separate server processes (several instances in one process), main() of the binary (never run)",
+    "trusted: the reference model and oracles, the shim VFS's pass-through correctness, the simulator's unique id source, SQLite and actix below/above the seams",
 ];
 
 pub fn meta(prop: &str) -> Meta {
-    let seq_rule = "cases = seeded sequential symbolic histories (3-60 ops, 1-4 clients, adversarial id classes, clock jumps, chunked uploads, clean restarts) executed against the real server and compared step by step with the reference model; a case is distinct by the hash of its (operation kind, argument class, outcome class) sequence and non-trivial when at least one AddVersion was accepted";
-    match prop {
-        _ => Meta {
-            level: "exploration",
-            rule: seq_rule,
-            assumptions: COMMON_ASSUMPTIONS,
-        },
+    const SEQ: &str = "cases = seeded sequential symbolic histories (3-60 ops, 1-4 clients, adversarial id classes incl. other clients' ids, clock jumps, chunked uploads, clean restarts, page-size knob) executed against the real server and compared step by step with the reference model; a case is distinct by the hash of its (operation kind, argument class, outcome class) sequence and non-trivial when at least one AddVersion was accepted";
+    const CONC: &str = "cases = (prefix state, batch of 2-4 overlapping requests on 2-3 simulated threads and 1-3 server instances, seeded schedule); distinct by the hash of the full (thread, scheduling-site) interleaving trace; every one is non-trivial (at least two requests); each batch is decided by a brute-force linearizability search over real-time-respecting orders against the reference model";
+    const CRASH: &str = "evaluations = recovered crash images: for every mutating VFS call (write/truncate/sync/delete) of every request of each generated history, 1 process-crash image + m power-loss images (quick m=2, thorough m=6; plus nested crash-during-recovery images in thorough); each image is recovered via SqliteStorage::new, integrity-checked, compared with the model state before/after the in-flight request, then served and extended. distinct = distinct (image kind, VFS call kind+file, request kind, in-flight/acked, first surviving-write pattern) cells; non-trivial = all (every image is a real crash point)";
+    const FAULT: &str = "evaluations = injected faults that actually fired: for every request of each generated history, every storage-trait call x {fail before effect, fail after effect} plus sampled pairs, and VFS calls x 14 error kinds (single and sticky windows; sampled to 60 per request); each on a copy of the data directory as of just before the request. distinct = distinct (injection, request kind, chain-length class) cells; non-trivial = the fault fired inside a request";
+    const WIRE: &str = "cases = seeded servers holding a generated history, optionally restarted with an allow-list (absent/empty/one/many), then 4-40 grammar-generated requests (route x method x client-id form x path-id form x content-type form x body class incl. exactly 100 MiB / 100 MiB+1, dropped connections, empty chunks); distinct by the hash of the (route, class, forms, status) sequence";
+    const TWIN: &str = "cases = one symbolic history executed in lock step on several worlds (memory / SQLite / SQLite restarted at random points, or HTTP / library entry), responses compared modulo the bijection of issued ids; distinct by outcome-class sequence, non-trivial when at least one version was accepted";
+    const ISO: &str = "cases = multi-client histories that quote other clients' ids, each followed by one solo re-run per client on a fresh world with the same clock timeline; distinct by outcome-class sequence, non-trivial when at least one version was accepted";
+    const COMPAT: &str = "cases = (fixture of the committed corpus written by the pinned tree, entry point, restart-midway flag); exhaustive over the corpus (40 fixtures: clean shutdown, leftover WAL, process-crash and power-loss images; 3 page sizes); decides nothing about histories outside the corpus";
+    let (level, rule, eval_counter): (&'static str, &'static str, Option<&'static str>) = match prop {
+        "C03" => ("exploration", CONC, None),
+        "C04" => ("fault_enumeration", CRASH, Some("probe.images_verified")),
+        "C05" => ("fault_enumeration", FAULT, Some("probe.fault_injections")),
+        "C09" => ("exploration", ISO, None),
+        "C13" => ("exploration", TWIN, None),
+        "C15" | "C16" => ("exploration", WIRE, None),
+        "C19" => ("exploration", COMPAT, None),
+        _ => ("exploration", SEQ, None),
+    };
+    Meta {
+        level,
+        rule,
+        assumptions: COMMON_ASSUMPTIONS,
+        eval_counter,
     }
 }
 
